@@ -44,13 +44,29 @@ def c06_r1(ctx):
     loops = [lp for lp in ast.walk(wp.node) if isinstance(lp, ast.For) and A.eq(lp.iter, "reader.iter_docs()")]
     if len(loops) == 1 and isinstance(loops[0].target, ast.Tuple) and isinstance(loops[0].target.elts[0], ast.Name):
         A.eq(loops[0].target.elts[0], "docnum")
+    # a local holding the current number (`newdoc = self.docnum` at the top of the iteration) stands for it until the advance
+    cur = {}
+    an = norm.assigned_names(wp.node)
+    for name, vals in an.items():
+        if len(vals) == 1 and vals[0] is not None and norm.canon(vals[0]) == "self.docnum":
+            cur[name] = vals[0]
+
+    def cv(e):
+        return norm.canon(norm.substitute(e, cur)) if cur else norm.canon(e)
     for st in ast.walk(wp.node):
         if isinstance(st, ast.Assign) and isinstance(st.targets[0], ast.Subscript) and A.eq(st.targets[0], "docmap[docnum]"):
-            order.append(("map", norm.canon(st.value), st.lineno))
+            order.append(("map", cv(st.value), st.lineno))
         if isinstance(st, ast.AugAssign) and norm.canon(st.target) == "self.docnum":
             order.append(("inc", norm.canon(st.value), st.lineno))
+        if isinstance(st, ast.Assign) and any(norm.canon(t) == "self.docnum" for t in st.targets):
+            v = cv(st.value)
+            order.append(("inc", "1", st.lineno) if v in ("(self.docnum + 1)", "(1 + self.docnum)") else ("set", v, st.lineno))
+        if isinstance(st, ast.Assign) and len(st.targets) == 1 and isinstance(st.targets[0], ast.Name) and st.targets[0].id in cur:
+            order.append(("cur", "", st.lineno))
         if isinstance(st, ast.Call) and norm.call_name(st) == "start_doc":
-            order.append(("start", norm.canon(st.args[0]) if st.args else "", st.lineno))
+            order.append(("start", cv(st.args[0]) if st.args else "", st.lineno))
+    while order and sorted(order, key=lambda x: x[2])[0][0] == "cur":
+        order.remove(sorted(order, key=lambda x: x[2])[0])
     order.sort(key=lambda x: x[2])
     kinds = [(k, v) for k, v, _ in order]
     ctx.ob(wp, kinds == [("map", "self.docnum"), ("start", "self.docnum"), ("inc", "1")],
@@ -166,14 +182,39 @@ def c06_r2(ctx):
                             role = "unchanged_segments" if norm.canon(norm.receiver(c)) == keep else "segments_to_merge"
                             apps[role] = sorted((p_, t.replace(flag, "merge_point_found")) for (p_, t) in (fa.at(n) or []) if flag in t)
             excl = roles_ok and apps.get("unchanged_segments") == [("T", "merge_point_found")] and apps.get("segments_to_merge") == [("F", "merge_point_found")]
-            ctx.ob(f, excl, "each segment goes to exactly one of unchanged_segments / segments_to_merge", detail=str(apps))
+            slice_form = False
+            if not excl:
+                # accepted second idiom: scan the sorted list S with enumerate, append (seg, i) to the merge list, `break` at the
+                # merge point, keep  S[i + 1:]  -- prefix and suffix of the SAME list S split at the SAME index i
+                mrg2 = norm.canon(mloops[0].iter) if len(mloops) == 1 else None
+                scans = [lp for lp in ast.walk(f.node) if isinstance(lp, ast.For) and lp not in mloops and isinstance(lp.iter, ast.Call)
+                         and norm.call_name(lp.iter) == "enumerate" and isinstance(lp.target, ast.Tuple) and len(lp.target.elts) == 2
+                         and any(isinstance(x, ast.Break) for x in ast.walk(lp))]
+                if mrg2 and len(scans) == 1:
+                    lp = scans[0]
+                    S = norm.canon(lp.iter.args[0])
+                    iv, sv_ = [norm.canon(e) for e in lp.target.elts]
+                    top_app = [st for st in lp.body if isinstance(st, ast.Expr) and isinstance(st.value, ast.Call) and norm.call_name(st.value) == "append"
+                               and norm.canon(norm.receiver(st.value)) == mrg2 and norm.canon(st.value.args[0]) == "(%s, %s)" % (sv_, iv)]
+                    brk_after = bool(top_app) and all(not isinstance(x, ast.Break) for st in lp.body[:lp.body.index(top_app[0])] for x in ast.walk(st))
+                    keeps = [st for st in ast.walk(f.node) if isinstance(st, ast.Assign) and isinstance(st.value, ast.Subscript)
+                             and norm.canon(st.value.value) == S and isinstance(st.value.slice, ast.Slice) and st.value.slice.upper is None and st.value.slice.step is None
+                             and st.value.slice.lower is not None and norm.canon(st.value.slice.lower) == "(1 + %s)" % iv]
+                    rets_ = [norm.canon(r.value) for r in returns_of(f)]
+                    if len(top_app) == 1 and brk_after and len(keeps) == 1 and norm.canon(keeps[0].targets[0]) in rets_ and \
+                            norm.deep_canon(lp.iter.args[0], f.node).startswith("sorted(segments"):
+                        slice_form = True
+                        A.eq(keeps[0].targets[0], "unchanged_segments")
+                        keep = A.name("unchanged_segments")
+                        roles_ok = True
+            ctx.ob(f, excl or slice_form, "each segment goes to exactly one of unchanged_segments / segments_to_merge", detail=str(apps))
             # merged ones are the ones passed to add_reader; return unchanged (or everything when nothing is merged)
             fa_ret = {}
             for n in fa.g.nodes:
                 if n.kind == "return":
                     fa_ret[A.text(n.ast.value)] = sorted((p_, t) for (p_, t) in (fa.at(n) or []) if flag in t or mrg in t)
             ok = roles_ok and set(fa_ret) == {"unchanged_segments", "segments"} and \
-                any(p_ == "T" for (p_, t) in fa_ret["unchanged_segments"])
+                (any(p_ == "T" for (p_, t) in fa_ret["unchanged_segments"]) or slice_form)
             ctx.ob(f, ok, "exactly segments_to_merge is merged; unchanged_segments is returned then, otherwise the whole input",
                    detail="returns %s" % (fa_ret,))
             # the partition loop ranges over a sorted copy of all input segments
@@ -190,8 +231,10 @@ def c06_r2(ctx):
     cm = prog.method("writing.SegmentWriter", "commit", inherited=False)
     F = pm.Alpha(cm)
     sts = pm.stmts_of(cm.node)
+    appended = any(isinstance(st, ast.Expr) and isinstance(st.value, ast.Call) and F.eq(st.value, "finalsegments.append(ANY)") and
+                   norm.deep_canon(st.value.args[0], cm.node) == "self._finalize_segment()" for st in sts)
     ctx.ob(cm, F.has(sts, "finalsegments = self._merge_segments(mergetype, optimize, merge)") and
-           F.has(sts, "finalsegments.append(self._finalize_segment())") and F.has(sts, "self._commit_toc(finalsegments)"),
+           appended and F.has(sts, "self._commit_toc(finalsegments)"),
            "commit publishes the policy's kept segments plus the new segment")
     mg = prog.method("writing.SegmentWriter", "_merge_segments", inherited=False)
     rets = [norm.canon(r.value) for r in returns_of(mg)]
@@ -208,7 +251,17 @@ def c06_r3(ctx):
     for fn, coll, offs, counter in OFFSET_BUILDERS:
         f = prog.func(fn)
         ctx.saw(f)
-        loops = [n for n in ast.walk(f.node) if isinstance(n, ast.For) and norm.canon(n.iter) == coll]
+        # the collection / the offsets list may be held in a local that is stored into (or taken from) the attribute
+        def same_obj(text, attr):
+            if text == attr:
+                return True
+            for st in ast.walk(f.node):
+                if isinstance(st, ast.Assign) and len(st.targets) == 1:
+                    t_, v_ = norm.canon(st.targets[0]), norm.canon(st.value)
+                    if (t_ == attr and v_ == text) or (t_ == text and v_ == attr):
+                        return True
+            return False
+        loops = [n for n in ast.walk(f.node) if isinstance(n, ast.For) and same_obj(norm.canon(n.iter), coll)]
         ok = False
         detail = ""
         if len(loops) == 1:
@@ -216,12 +269,12 @@ def c06_r3(ctx):
             body = [norm.stmt_text(s_) for s_ in lp.body]
             v = norm.canon(lp.target)
             apps = [s_ for s_ in lp.body if isinstance(s_, ast.Expr) and isinstance(s_.value, ast.Call) and norm.call_name(s_.value) == "append"
-                    and norm.canon(norm.receiver(s_.value)) == offs]
+                    and same_obj(norm.canon(norm.receiver(s_.value)), offs)]
             incs = [s_ for s_ in lp.body if isinstance(s_, ast.AugAssign) and isinstance(s_.op, ast.Add)]
             # both statements sit directly in the loop body (unconditional), append first; nothing else touches the base
             base_t = norm.canon(incs[0].target) if len(incs) == 1 else None
             others = [s_ for s_ in lp.body if s_ not in apps and s_ not in incs and
-                      any(isinstance(x, (ast.Name, ast.Attribute)) and isinstance(x.ctx, ast.Store) and norm.canon(x) in (base_t, offs) for x in ast.walk(s_))]
+                      any(isinstance(x, (ast.Name, ast.Attribute)) and isinstance(x.ctx, ast.Store) and (norm.canon(x) == base_t or same_obj(norm.canon(x), offs)) for x in ast.walk(s_))]
             ok = len(apps) == 1 and len(incs) == 1 and lp.body.index(apps[0]) < lp.body.index(incs[0]) and not others and \
                 not any(isinstance(s_, (ast.Continue, ast.Break, ast.Return)) for s_ in ast.walk(lp) if s_ is not lp) and \
                 norm.canon(apps[0].value.args[0]) == norm.canon(incs[0].target) and \
